@@ -105,6 +105,11 @@ def main(tier, seed):
     if quick: shapes = [x for x in shapes if not x[0].startswith(('sent/', 'task/'))] + [x for x in shapes if x[0].startswith(('sent/', 'task/'))][::4]
     R.run_query(Query('layout', 'c16', 'path_layout', [dict(name=nm, spec=sp) for nm, sp in shapes], '%d value shapes' % len(shapes)), confirm, key_of)
     d1 = [(nm, ('Term', t)) for nm, t in depth1_terms()]
+    a_, b_, c_ = A(0), A(1), ('Word', 'k')
+    for k_ in ('Product', 'ConjunctionSequential', 'Conjunction', 'IntersectionExtension'):
+        d1 += [('three/%s/abc' % k_, ('Term', (k_, [a_, b_, c_]))), ('three/%s/cab' % k_, ('Term', (k_, [c_, a_, b_]))), ('three/%s/bac' % k_, ('Term', (k_, [b_, a_, c_])))]
+    for k_ in ('ImageExtension', 'ImageIntension'):
+        d1 += [('three/%s/%d' % (k_, i_), ('Term', (k_, i_, [a_, b_, c_]))) for i_ in range(4)] + [('three/%s/swap' % k_, ('Term', (k_, 1, [c_, b_, a_])))]
     pairs = [('%s~%s' % (a[0], b[0]), [a[1], b[1]]) for a, b in itertools.combinations(d1, 2)]
     st = ('Inheritance', A(0), A(1))
     ss = sentences(st); ts = tasks(st)
